@@ -420,7 +420,7 @@ func init() {
 		Title:    "calls are pure: no argument mutation, no output, no history, safe under concurrency",
 		Explorer: "E2 explicit-state history search (fresh process per history, deep state dump) + E3 controlled-scheduler DFS over interleavings with iterated preemption bound on an instrumented overlay + universal argument/output monitors (+ free-running -race pass as sampling complement)",
 		Rule: "monitors: every call of the C04 list space and the C07 list space, argument slices with sentinel-filled spare capacity compared afterwards, fd 1/2 size compared after every call; " +
-			"E2: alphabet of 40 colliding calls; every history of length <= 2 (thorough 3) is replayed in a fresh process; state = canonical deep dump of all package-level variables of the module's packages (generated from the working tree), transition = one call; invariant: each call returns what it returns as the first call of a fresh process, arguments untouched, nothing printed; singletons run twice (determinism); " +
+			"E2: alphabet of 43 colliding calls; every history of length <= 2 (thorough 3) is replayed in a fresh process; state = canonical deep dump of all package-level variables of the module's packages (generated from the working tree), transition = one call; invariant: each call returns what it returns as the first call of a fresh process, arguments untouched, nothing printed; singletons run twice (determinism); " +
 			"E3: scenarios = every unordered pair of 12 colliding calls as 2 threads x 1 call, 2 threads x 2 calls in opposite orders, triples; scheduling points at every access to a package-level variable, every pointer-receiver method statement of a state-bearing type, every sync / sync/atomic operation, every range over a map (order = choice); DFS with preemption bound 0,1,2 (thorough 3); oracles on every complete schedule: results equal the sequential ones, no unordered conflicting accesses (vector clocks), no deadlock, arguments untouched; " +
 			"non-trivial = E2 histories of length >= 2 and E3 executions beyond the default schedule",
 		Assumptions: []string{
